@@ -163,16 +163,122 @@ pub fn kind_twin(env: &Env, a: &Address) -> Address {
 /// The owner replaces the contract's code (with the executable the test host gives natively registered
 /// contracts, so the current source keeps running) and completes the migration. Configuration and state are
 /// not the migration's business: everything a history has built up must still be there afterwards.
+/// What a history knows and an owner could name in migration data.
+#[derive(Clone, Debug, Default)]
+pub struct MigHints {
+    /// related names, e.g. (source chain, message id) of the messages of the history
+    pub pairs: std::vec::Vec<(std::string::String, std::string::String)>,
+    pub strings: std::vec::Vec<std::string::String>,
+    pub addresses: std::vec::Vec<Address>,
+}
+
+/// A value of the (source-level) type `ty` built from the hints: collections list everything the hints know.
+pub fn hinted_value(env: &Env, ty: &str, h: &MigHints) -> Option<Val> {
+    let strings: std::vec::Vec<std::string::String> = if h.strings.is_empty() { h.pairs.iter().flat_map(|(a, b)| [a.clone(), b.clone()]).collect() } else { h.strings.clone() };
+    Some(match ty {
+        "()" => Val::VOID.into(),
+        "String" => sstr(env, strings.first().map(|s| s.as_str()).unwrap_or("x")).into_val(env),
+        "Address" => h.addresses.first().cloned().unwrap_or_else(|| Address::generate(env)).into_val(env),
+        "bool" => true.into_val(env),
+        "u32" => 1u32.into_val(env),
+        "u64" => 1u64.into_val(env),
+        "u128" => 1u128.into_val(env),
+        "i128" => 1i128.into_val(env),
+        "Bytes" => Bytes::new(env).into_val(env),
+        "BytesN<32>" => BytesN::from_array(env, &[0u8; 32]).into_val(env),
+        _ => {
+            if let Some(inner) = ty.strip_prefix("Vec<").and_then(|t| t.strip_suffix('>')) {
+                let mut v: SVec<Val> = SVec::new(env);
+                match inner {
+                    "(String,String)" => {
+                        for (a, b) in &h.pairs {
+                            let t: SVec<Val> = SVec::from_array(env, [sstr(env, a).into_val(env), sstr(env, b).into_val(env)]);
+                            v.push_back(t.into_val(env));
+                        }
+                    }
+                    "String" => strings.iter().for_each(|s| v.push_back(sstr(env, s).into_val(env))),
+                    "Address" => h.addresses.iter().for_each(|a| v.push_back(a.into_val(env))),
+                    _ => {
+                        if let Some(x) = hinted_value(env, inner, h) {
+                            v.push_back(x);
+                        }
+                    }
+                }
+                v.into_val(env)
+            } else if let Some(inner) = ty.strip_prefix("Option<").and_then(|t| t.strip_suffix('>')) {
+                hinted_value(env, inner, h)?
+            } else if let Some(parts) = crate::sweep::tuple_parts(ty) {
+                if parts == ["String", "String"] && !h.pairs.is_empty() {
+                    let (a, b) = &h.pairs[0];
+                    let t: SVec<Val> = SVec::from_array(env, [sstr(env, a).into_val(env), sstr(env, b).into_val(env)]);
+                    t.into_val(env)
+                } else {
+                    let mut v: SVec<Val> = SVec::new(env);
+                    for p in parts {
+                        v.push_back(hinted_value(env, p, h)?);
+                    }
+                    v.into_val(env)
+                }
+            } else {
+                return None;
+            }
+        }
+    })
+}
+
+/// The migration data lists a caller can try, most conventional first: `()` (what every shipped contract takes at
+/// the pinned commit), then one value per migration data type the tree under test declares in its sources
+/// (`#[migratable(with_type = T)]`), built from the hints.
+pub fn migration_candidates(env: &Env, h: &MigHints) -> std::vec::Vec<SVec<Val>> {
+    let mut out = vec![SVec::from_array(env, [Val::VOID.into()])];
+    for t in crate::sweep::migration_types() {
+        if let Some(v) = hinted_value(env, t, h) {
+            out.push(SVec::from_array(env, [v]));
+        }
+    }
+    out
+}
+
+/// `migrate` with the first data the contract accepts (needs the authorisations already arranged by the caller)
+pub fn migrate_dyn(env: &Env, contract: &Address, h: &MigHints) -> Result<(), String> {
+    let mut last = std::string::String::new();
+    for args in migration_candidates(env, h) {
+        let r = env.try_invoke_contract::<Val, soroban_sdk::Error>(contract, &soroban_sdk::Symbol::new(env, "migrate"), args);
+        if matches!(r, Ok(Ok(_))) {
+            return Ok(());
+        }
+        if last.is_empty() {
+            last = format!("{:?}", r);
+        }
+    }
+    Err(last)
+}
+
+/// one `migrate` call with data of the type the contract's sources declare (for callers that arranged exact authorisations,
+/// which a refused first attempt would use up)
+pub fn migrate_typed(env: &Env, contract: &Address, contract_dir: &str, h: &MigHints) -> Result<(), String> {
+    let v = hinted_value(env, &crate::sweep::migration_type(contract_dir), h).unwrap_or_else(|| Val::VOID.into());
+    let r = env.try_invoke_contract::<Val, soroban_sdk::Error>(contract, &soroban_sdk::Symbol::new(env, "migrate"), SVec::from_array(env, [v]));
+    if matches!(r, Ok(Ok(_))) {
+        Ok(())
+    } else {
+        Err(format!("{:?}", r))
+    }
+}
+
 pub fn upgrade_and_migrate(env: &Env, contract: &Address) -> Result<(), String> {
+    upgrade_and_migrate_with(env, contract, &MigHints::default())
+}
+
+pub fn upgrade_and_migrate_with(env: &Env, contract: &Address, hints: &MigHints) -> Result<(), String> {
     env.mock_all_auths();
     let h = BytesN::from_array(env, &empty_wasm_hash());
     let r1 = env.try_invoke_contract::<(), soroban_sdk::Error>(contract, &soroban_sdk::Symbol::new(env, "upgrade"), (h,).into_val(env));
     if !matches!(r1, Ok(Ok(()))) {
         return Err(format!("owner's upgrade refused: {:?}", r1));
     }
-    let r2 = env.try_invoke_contract::<(), soroban_sdk::Error>(contract, &soroban_sdk::Symbol::new(env, "migrate"), ((),).into_val(env));
-    if !matches!(r2, Ok(Ok(()))) {
-        return Err(format!("owner's migration refused: {:?}", r2));
+    if let Err(e) = migrate_dyn(env, contract, hints) {
+        return Err(format!("owner's migration refused: {}", e));
     }
     env.set_auths(&[]);
     Ok(())
